@@ -98,7 +98,15 @@ def check(ctx, case):
 
     nd = NoteData.from_notes(iter(stream), columns)
     text = str(nd)
+    it = iter(nd)
+    head = [n for _, n in zip(range(ctx.evaluations % 3), it)]
+    del it
+    for i, _a in enumerate(nd):
+        if i >= 1:
+            break
     back = list(nd)
+    if list(nd) != back or head != back[: len(head)]:
+        ctx.violation("readback:iteration-depends-on-earlier-iterations", {"n": len(back), "head": len(head)})
     ctx.mon("readback")
     ok = len(back) == len(stream) and all(
         type(b) is Note and b == s and type(b.beat) is Beat and b.note_type is s.note_type for b, s in zip(back, stream))
